@@ -311,7 +311,7 @@ public:
       if (0.0!=std::fabs(quadt.coef(i))) {
         // Propagate context in some cases.
         auto var1 = quadt.var1(i), var2 = quadt.var2(i);
-        auto ctx12 = ctx;
+        auto ctx12 = (quadt.coef(i)>=0.0) ? +ctx : -ctx;
         if (MPD( lb(var1) ) >= 0.0 && MPD( lb(var2) ) >= 0.0) {
           // leave as is
         } else if (MPD( ub(var1) ) <= 0.0 && MPD( ub(var2) ) <= 0.0) {
